@@ -14,7 +14,7 @@ PID = "C04"
 
 def configs(ctx):
     q = ctx.quick
-    rekey = ["open_sp", "open_id", "open_iter", "copy", "readsp", "setkey", "assign", "update_sp", "init", "docset"]
+    rekey = ["open_sp", "open_id", "open_iter", "copy", "readsp", "setkey", "assign", "update_sp", "init", "docset"] + F.SPEDITS
     return [
         F.Config("rekey-populated", rekey, 4 if q else 5, "int", init_jobs=2, limit=6000 if q else 200000, docvals=("d1",),
                  invariants=("HashInvX",), properties=("NoClobber", "RekeyCarries", "UpdateNoOverwrite"), strict=(("properties", "HandlesFollow"),)),
@@ -155,7 +155,7 @@ def run(ctx):
     for c in configs(ctx):
         F.run_config(ctx, PID, c)
     F.run_recorded(ctx, PID, "random-wide", 50 if ctx.quick else 3000, 40 if ctx.quick else 60,
-                   ["open_sp", "open_id", "open_iter", "copy", "readsp", "setkey", "assign", "update_sp", "init", "docset", "writefile", "remove", "move", "clone", "restart"])
+                   ["open_sp", "open_id", "open_iter", "copy", "readsp", "setkey", "assign", "update_sp", "init", "docset", "writefile", "remove", "move", "clone", "restart"] + F.SPEDITS)
     independent_handles(ctx)
     assignment_scenarios(ctx)
     ctx.cov["binding_selftest"] = F.selftest(ctx, PID)
